@@ -2132,7 +2132,7 @@ impl StorageEngine {
     pub fn keys(&self, db: DatabaseIndex, pattern: &[u8]) -> Result<Vec<Vec<u8>>> {
         let database = self.databases.get(db).ok_or(StorageError::InvalidDatabase)?;
         
-        let pattern_str = String::from_utf8_lossy(pattern);
+        let pattern_str = pattern;
         let mut matching_keys = Vec::new();
         
         // Collect keys from all shards
@@ -2142,7 +2142,7 @@ impl StorageEngine {
                 if stored_value.is_expired() {
                     continue;
                 }
-                let key_str = String::from_utf8_lossy(key);
+                let key_str = key;
                 if pattern_matches(&pattern_str, &key_str) {
                     matching_keys.push(key.clone());
                 }
@@ -2315,7 +2315,7 @@ impl StorageEngine {
         let mut keys_examined = 0;
         let mut current_pos = start_pos;
         
-        let pattern_str = pattern.map(|p| String::from_utf8_lossy(p));
+        let pattern_str = pattern;
         
         while keys_examined < max_scan_count * 10 && matching_keys.len() < max_scan_count {
             if current_pos >= all_keys.len() {
@@ -2326,7 +2326,7 @@ impl StorageEngine {
             let mut include_key = true;
             
             if let Some(ref pat) = pattern_str {
-                let key_str = String::from_utf8_lossy(key);
+                let key_str = key;
                 if !pattern_matches(pat, &key_str) {
                     include_key = false;
                 }
@@ -2377,7 +2377,7 @@ impl StorageEngine {
                 let mut result = Vec::new();
                 let mut fields_examined = 0;
                 let mut current_pos = start_pos;
-                let pattern_str = pattern.map(|p| String::from_utf8_lossy(p));
+                let pattern_str = pattern;
                 
                 while fields_examined < max_scan_count * 10 && (result.len() / if no_values { 1 } else { 2 }) < max_scan_count {
                     if current_pos >= fields.len() {
@@ -2388,7 +2388,7 @@ impl StorageEngine {
                     let mut include_field = true;
                     
                     if let Some(ref pat) = pattern_str {
-                        let field_str = String::from_utf8_lossy(field);
+                        let field_str = field;
                         if !pattern_matches(pat, &field_str) {
                             include_field = false;
                         }
@@ -2444,7 +2444,7 @@ impl StorageEngine {
                 let mut result = Vec::new();
                 let mut members_examined = 0;
                 let mut current_pos = start_pos;
-                let pattern_str = pattern.map(|p| String::from_utf8_lossy(p));
+                let pattern_str = pattern;
                 
                 while members_examined < max_scan_count * 10 && result.len() < max_scan_count {
                     if current_pos >= members.len() {
@@ -2455,7 +2455,7 @@ impl StorageEngine {
                     let mut include_member = true;
                     
                     if let Some(ref pat) = pattern_str {
-                        let member_str = String::from_utf8_lossy(member);
+                        let member_str = member;
                         if !pattern_matches(pat, &member_str) {
                             include_member = false;
                         }
@@ -2512,7 +2512,7 @@ impl StorageEngine {
                 let mut result = Vec::new();
                 let mut items_examined = 0;
                 let mut current_pos = start_pos;
-                let pattern_str = pattern.map(|p| String::from_utf8_lossy(p));
+                let pattern_str = pattern;
                 
                 while items_examined < max_scan_count * 10 && result.len() < max_scan_count {
                     if current_pos >= items.len() {
@@ -2523,7 +2523,7 @@ impl StorageEngine {
                     let mut include_item = true;
                     
                     if let Some(ref pat) = pattern_str {
-                        let member_str = String::from_utf8_lossy(member);
+                        let member_str = member;
                         if !pattern_matches(pat, &member_str) {
                             include_item = false;
                         }
@@ -2756,10 +2756,12 @@ mod tests {
     }
 }
 
-/// Simple glob pattern matching (unchanged)
-fn pattern_matches(pattern: &str, text: &str) -> bool {
-    let pattern_chars: Vec<char> = pattern.chars().collect();
-    let text_chars: Vec<char> = text.chars().collect();
+/// Glob pattern matching, byte by byte: keys, fields and members are binary strings (a lossy
+/// conversion to text would make different bytes that are not valid UTF-8 compare equal, and
+/// let `?` stand for a whole multi-byte sequence)
+fn pattern_matches(pattern: &[u8], text: &[u8]) -> bool {
+    let pattern_chars: &[u8] = pattern;
+    let text_chars: &[u8] = text;
     
     let mut p_idx = 0;
     let mut t_idx = 0;
@@ -2769,27 +2771,27 @@ fn pattern_matches(pattern: &str, text: &str) -> bool {
     while t_idx < text_chars.len() {
         if p_idx < pattern_chars.len() {
             match pattern_chars[p_idx] {
-                '?' => {
+                b'?' => {
                     p_idx += 1;
                     t_idx += 1;
                     continue;
                 }
-                '*' => {
+                b'*' => {
                     star_idx = Some(p_idx);
                     star_match_idx = t_idx;
                     p_idx += 1;
                     continue;
                 }
-                '[' => {
-                    if let Some(end) = pattern_chars[p_idx..].iter().position(|&c| c == ']') {
+                b'[' => {
+                    if let Some(end) = pattern_chars[p_idx..].iter().position(|&c| c == b']') {
                         let class_end = p_idx + end;
-                        let negate = p_idx + 1 < class_end && pattern_chars[p_idx + 1] == '^';
+                        let negate = p_idx + 1 < class_end && pattern_chars[p_idx + 1] == b'^';
                         let start_idx = if negate { p_idx + 2 } else { p_idx + 1 };
                         
                         let mut matched = false;
                         let mut i = start_idx;
                         while i < class_end {
-                            if i + 2 < class_end && pattern_chars[i + 1] == '-' {
+                            if i + 2 < class_end && pattern_chars[i + 1] == b'-' {
                                 if text_chars[t_idx] >= pattern_chars[i] && text_chars[t_idx] <= pattern_chars[i + 2] {
                                     matched = true;
                                     break;
@@ -2811,7 +2813,7 @@ fn pattern_matches(pattern: &str, text: &str) -> bool {
                         }
                     }
                 }
-                '\\' if p_idx + 1 < pattern_chars.len() => {
+                b'\\' if p_idx + 1 < pattern_chars.len() => {
                     if pattern_chars[p_idx + 1] == text_chars[t_idx] {
                         p_idx += 2;
                         t_idx += 1;
@@ -2837,7 +2839,7 @@ fn pattern_matches(pattern: &str, text: &str) -> bool {
         }
     }
     
-    while p_idx < pattern_chars.len() && pattern_chars[p_idx] == '*' {
+    while p_idx < pattern_chars.len() && pattern_chars[p_idx] == b'*' {
         p_idx += 1;
     }
     
